@@ -35,8 +35,12 @@ fn main() {
     watchdog();
     let args: Vec<String> = std::env::args().collect();
     let cmd = args.get(1).map(|s| s.as_str()).unwrap_or("");
-    let stdout = std::io::stdout();
-    let mut out = BufWriter::with_capacity(1 << 20, stdout.lock());
+    // output goes through an unbounded queue to a writer thread: a slow consumer of the pipe must never look like a case that does not return
+    let (tx, rx) = std::sync::mpsc::channel::<Vec<u8>>();
+    let writer = std::thread::spawn(move || { let so = std::io::stdout(); let mut so = so.lock(); for chunk in rx { if so.write_all(&chunk).is_err() { break; } } let _ = so.flush(); });
+    struct Chan(std::sync::mpsc::Sender<Vec<u8>>);
+    impl Write for Chan { fn write(&mut self, b: &[u8]) -> std::io::Result<usize> { let v = ledger::untracked(|| b.to_vec()); let _ = ledger::untracked(|| self.0.send(v)); Ok(b.len()) } fn flush(&mut self) -> std::io::Result<()> { Ok(()) } }
+    let mut out = BufWriter::with_capacity(1 << 16, Chan(tx));
     let seed: u64 = arg(&args, "--seed", 1);
     let n: usize = arg(&args, "--n", 100);
     // quiet panics: outcomes are reported through catch_unwind
@@ -65,4 +69,5 @@ fn main() {
         _ => { eprintln!("unknown subcommand {:?}", cmd); std::process::exit(2); }
     }
     out.flush().unwrap();
+    drop(out); let _ = writer.join();
 }
